@@ -34,12 +34,14 @@ Definition run_rtj (cc : ccfg) (w : wcfg) (args : list bytes) : bytes :=
                     end
                 | None => s2b "cross=err"
                 end in
+              let vj := match validate_and_encode_json cc w c with Some _ => s2b "vj=ok" | None => s2b "vj=err" end in
+              let dvj := match decode_and_validate_json cc w j with DOk _ => s2b "dvj=ok" | DErr => s2b "dvj=err" | DUnmodelled => s2b "*" end in
               join_sp (jprint 8 j ::
                        match d with
                        | DOk c' => s2b "ok" :: obs_getters cc c'
                        | DErr => [s2b "err"]
                        | DUnmodelled => [s2b "*"]
-                       end ++ [cross])
+                       end ++ [cross; vj; dvj])
           end
       end
   | _ => bad_input
